@@ -33,12 +33,14 @@ func e1Runs(quick bool) []e1Run {
 				e1Run{"all interleavings, fault-free", cluster.Config{N: 4, Rules: rs, Horizon: 1, Timeouts: 1}, -1, 20 * time.Second},
 				e1Run{"<=1 deviation, fault-free", cluster.Config{N: 4, Rules: rs, Horizon: 6, Timeouts: 12, Dups: 1, Drops: true}, 1, 30 * time.Second},
 				e1Run{"<=1 deviation, twin", cluster.Config{N: 4, Rules: rs, Horizon: 6, Timeouts: 12, Drops: true, Twin: 3}, 1, 30 * time.Second},
+				e1Run{"<=1 deviation, scripted Byzantine replica", cluster.Config{N: 4, Rules: rs, Horizon: 5, Timeouts: 12, Byz: 2, Crafter: 4}, 1, 30 * time.Second},
 			)
 		} else {
 			runs = append(runs,
 				e1Run{"all interleavings, fault-free", cluster.Config{N: 4, Rules: rs, Horizon: 2, Timeouts: 1}, -1, 15 * time.Minute},
 				e1Run{"<=2 deviations, fault-free", cluster.Config{N: 4, Rules: rs, Horizon: 6, Timeouts: 12, Dups: 1, Drops: true}, 2, 15 * time.Minute},
 				e1Run{"<=2 deviations, twin", cluster.Config{N: 4, Rules: rs, Horizon: 6, Timeouts: 12, Drops: true, Twin: 3}, 2, 15 * time.Minute},
+				e1Run{"<=2 deviations, scripted Byzantine replica", cluster.Config{N: 4, Rules: rs, Horizon: 6, Timeouts: 12, Byz: 3, Drops: true, Crafter: 4}, 2, 20 * time.Minute},
 			)
 		}
 	}
